@@ -48,7 +48,7 @@ def _src(rng):
                 nv=rng.randint(1, 3), sdate=sd, stime=st, tstep=rng.choice([10000, 10000, 3000, 240000, 20000]),
                 # level edges decreasing upwards (sigma, eta, pressure) or increasing (heights, altitudes)
                 lv=sorted(rng.sample(range(0, 65), 4), reverse=rng.random() < 0.7), withcf=rng.random() < 0.3,
-                name16=rng.random() < 0.25)
+                name16=rng.random() < 0.25, owntflag=rng.random() < 0.2)
 
 
 def _recipe(rng):
@@ -76,6 +76,12 @@ def gen(rng, tier):
             # a last step that leaves the file for its caller to complete: createVariable in place, a copy without variables
             c['recipes'].append([rng.choice(['create', 'copynv'])] + [rng.randrange(1 << 20) for _ in range(6)])
     out.append(witnesses()[0][1])
+    # on every run: a reversed time window of a file whose step is not a whole number of hours (TSTEP is minus the HHMMSS of
+    # the step, not the field-wise floor of the negative seconds), then an operation that regenerates the time flags
+    for ts in (3000, 13000):
+        src = _src(rng)
+        src.update(kind='griddesc', withcf=False, nt=rng.choice([3, 4]), tstep=ts, nv=max(src['nv'], 1))
+        out.append(dict(src=src, recipes=[], ops=[['slice', [['TSTEP', ['t', None, None, -1]]]], ['subset', ['O3']]]))
     # files that carry a CF time variable (getTimes prefers it) whose time axis is changed without touching SDATE/STIME
     for fn in ('mean', 'every2', 'rev', 'first2'):
         src = _src(rng)
@@ -107,6 +113,18 @@ def build(src):
               YORIG=5000., XCELL=1000., YCELL=500., NCOLS=nc, NROWS=nr)
     if bnd:
         fa['FTYPE'] = 2
+    if src.get('owntflag') and not bnd:
+        # the time flags are handed over as an array and the start is not named: it is the first flag
+        import datetime
+        ts = int(src['tstep'])
+        t0 = datetime.datetime.strptime('%07d %06d' % (src['sdate'], src['stime']), '%Y%j %H%M%S')
+        dt_ = datetime.timedelta(hours=ts // 10000, minutes=ts // 100 % 100, seconds=ts % 100)
+        tf = np.zeros((nt, src['nv'], 2), dtype='i')
+        for i in range(nt):
+            tf[i, :, 0] = int((t0 + i * dt_).strftime('%Y%j'))
+            tf[i, :, 1] = int((t0 + i * dt_).strftime('%H%M%S'))
+        kw['TFLAG'] = tf
+        del fa['SDATE'], fa['STIME']
     f = ioapi_base.from_arrays(fileattrs=fa, **kw)
     if src.get('notflag'):
         # a file whose time axis lives in the header only (assembled by hand, before updatetflag() was ever called)
@@ -218,7 +236,7 @@ def resolve(recipe, f):
             return ['s', None, None]
         m = c % 11
         if m == 8:
-            st = [2, 3, -1, -2][b % 4] if d != 'TSTEP' else [2, 3][b % 2]     # reversed time is outside the domain
+            st = [2, 3, -1, -2][b % 4]     # a reversed time window too: its TSTEP is minus the HHMMSS of the step
             return ['t', None, None, st] if a % 2 else ['t', a % L, None, st]
         if m >= 9:
             if second:       # index lists on two dimensions select points, not a window: at most one list
@@ -305,7 +323,9 @@ def resolve(recipe, f):
         if not data:
             return ['copy']
         o = data[r[0] % len(data)]
-        return ['rename', o, [('R' + o)[:16], 'RENAMED', 'Y' * 17, 'R234567890123456'][r[1] % 4]]    # names stay valid identifiers (eval)
+        # names stay valid identifiers (eval); the last choice: onto another listed variable, which it replaces
+        return ['rename', o, [('R' + o)[:16], 'RENAMED', 'Y' * 17, 'R234567890123456',
+                              data[(r[0] + 1) % len(data)] if len(data) > 1 else 'RENAMED'][r[1] % 5]]
     if k == 'apply':
         ds = sorted(dims)
         return ['apply', ds[r[0] % len(ds)], ['mean', 'min', 'max', 'sum', 'id', 'first2', 'rev', 'every2', 'ends'][r[1] % 9]]
